@@ -57,9 +57,72 @@ type c01Attrs struct {
 }
 
 type c01Case struct {
+	Kind     string      `json:"kind"` // "" = route, "overlap" = match with a Sync fired from inside the attribute getters
 	Attrs    c01Attrs    `json:"attrs"`
 	Policies []c01Policy `json:"policies"`
 	Servers  []string    `json:"servers"`
+	New      []c01Policy `json:"new"` // overlap: the list synced during the match
+	K        int         `json:"k"`   // overlap: 0 = Sync right before the call, k>=1 = inside the k-th getter call
+}
+
+type c01OverlapObs struct {
+	Fired  bool  `json:"fired"`
+	During c01MA `json:"during"`
+	After  c01MA `json:"after"`
+}
+
+// hookedAttrs is an ordinary attribute record whose k-th getter call (counted over all
+// getters of authorizer.Attributes) first runs a hook: "the controller applies a new version
+// of the UpstreamCluster right now", in the goroutine that is matching the request.
+type hookedAttrs struct {
+	rec   authorizer.AttributesRecord
+	left  int
+	hook  func()
+	fired bool
+}
+
+func (h *hookedAttrs) tick() {
+	if h.fired || h.hook == nil {
+		return
+	}
+	h.left--
+	if h.left <= 0 {
+		h.fired = true
+		h.hook()
+	}
+}
+func (h *hookedAttrs) GetUser() user.Info      { h.tick(); return h.rec.GetUser() }
+func (h *hookedAttrs) GetVerb() string         { h.tick(); return h.rec.GetVerb() }
+func (h *hookedAttrs) IsReadOnly() bool        { h.tick(); return h.rec.IsReadOnly() }
+func (h *hookedAttrs) GetNamespace() string    { h.tick(); return h.rec.GetNamespace() }
+func (h *hookedAttrs) GetResource() string     { h.tick(); return h.rec.GetResource() }
+func (h *hookedAttrs) GetSubresource() string  { h.tick(); return h.rec.GetSubresource() }
+func (h *hookedAttrs) GetName() string         { h.tick(); return h.rec.GetName() }
+func (h *hookedAttrs) GetAPIGroup() string     { h.tick(); return h.rec.GetAPIGroup() }
+func (h *hookedAttrs) GetAPIVersion() string   { h.tick(); return h.rec.GetAPIVersion() }
+func (h *hookedAttrs) IsResourceRequest() bool { h.tick(); return h.rec.IsResourceRequest() }
+func (h *hookedAttrs) GetPath() string         { h.tick(); return h.rec.GetPath() }
+
+var _ authorizer.Attributes = &hookedAttrs{}
+
+// runOverlap: real ClusterInfo synced with the old list; MatchAttributes with attributes whose
+// k-th getter call runs the real Sync(new list); then a plain MatchAttributes.
+func runOverlap(c c01Case) interface{} {
+	rec := toAttrs(c.Attrs).(authorizer.AttributesRecord)
+	ci, err := clusters.CreateClusterInfo(c01ClusterObj(c.Servers, toPolicies(c.Policies)), stubHealthCheck, "", nil)
+	must(err)
+	defer ci.Stop()
+	newObj := c01ClusterObj(c.Servers, toPolicies(c.New))
+	obs := c01OverlapObs{}
+	h := &hookedAttrs{rec: rec, left: c.K, hook: func() { must(ci.Sync(newObj)) }}
+	if c.K <= 0 {
+		h.fired = true
+		h.hook()
+	}
+	obs.During = ask(ci, h)
+	obs.Fired = h.fired
+	obs.After = ask(ci, rec)
+	return obs
 }
 
 type c01MA struct {
@@ -186,6 +249,9 @@ func ask(ci *clusters.ClusterInfo, attrs authorizer.Attributes) c01MA {
 func runC01(raw json.RawMessage) interface{} {
 	var c c01Case
 	must(json.Unmarshal(raw, &c))
+	if c.Kind == "overlap" {
+		return runOverlap(c)
+	}
 	attrs := toAttrs(c.Attrs)
 	policies := toPolicies(c.Policies)
 
